@@ -111,6 +111,12 @@ type genOpts struct {
 	// DataEmbeds: byte strings (e.g. 32-byte addresses that are NOT accounts of any transaction) that every
 	// transaction carries inside its instruction data
 	DataEmbeds [][]byte
+	// TxDataFrames: also split the transaction's own bytes into 2..3 frames now and then (FramePct/2 percent).  Only
+	// for epochs that get no address index: `index gsfa` refuses such transactions ("transaction data is split into
+	// multiple objects"), the server's getTransaction / getBlock path reassembles them
+	TxDataFrames bool
+	// FirstBlockAtStart: no skipped slots before the first block (it sits at Epoch*432000 + FirstSlotAt)
+	FirstBlockAtStart bool
 }
 
 func pp[T any](v T) **T { p := &v; return &p }
@@ -294,7 +300,7 @@ func genEpoch(rng *zz.RNG, dir string, o genOpts) *gEpoch {
 	parent := slot
 	var blockLinks []datamodel.Link
 	for b := 0; b < o.NBlocks; b++ {
-		for rng.Intn(100) < o.SkipPct {
+		for rng.Intn(100) < o.SkipPct && !(b == 0 && o.FirstBlockAtStart) {
 			slot++
 		}
 		gb := &gBlock{Slot: slot, Parent: parent, Time: 1600000000 + slot, Height: 1000 + uint64(b)}
@@ -401,9 +407,21 @@ func genEpoch(rng *zz.RNG, dir string, o genOpts) *gEpoch {
 				k = 2 + rng.Intn(11)
 				gt.Frames = k
 			}
+			// the transaction's own bytes in linked frames too (2 or 3: the first frame keeps the signatures, which the
+			// indexers read from it)
+			kd := 1
+			if o.TxDataFrames && len(raw) >= 160 && rng.Intn(200) < o.FramePct {
+				kd = 2
+				if len(raw) >= 300 {
+					kd = 2 + rng.Intn(2)
+				}
+				if gt.Frames < kd {
+					gt.Frames = kd
+				}
+			}
 			txNode := ipldbindcode.Transaction{
 				Kind:     0,
-				Data:     w.frames(raw, 1, 5),
+				Data:     w.frames(raw, kd, 1+rng.Intn(3)),
 				Metadata: w.frames(metaZ, k, 1+rng.Intn(5)),
 				Slot:     int(slot),
 				Index:    pp(t),
